@@ -378,6 +378,22 @@ func (e *Engine) evCall(c *ast.CallExpr, st *State) []Value {
 			if e.isSpecHelper(id) {
 				return []Value{{e.heapGet(st, ghCount, e.isort()), types.Typ[types.Int]}}
 			}
+		case "rangeKeyStr", "rangeKeyInt":
+			// rangeKeyStr(n, j): the j-th key visited by the n-th range loop of the function, a range over a map that the
+			// loop does not modify
+			if e.isSpecHelper(id) {
+				tv := e.pk.Info.Types[c.Args[0]]
+				n := 0
+				if tv.Value != nil {
+					fmt.Sscan(tv.Value.ExactString(), &n)
+				}
+				fn, ok := e.mapKeyFn[n]
+				if !ok {
+					e.fail(c.Pos(), "%s(%d, ...): loop %d is not a range over an unmodified map (or has not been reached)", id.Name, n, n)
+				}
+				j := e.ev(c.Args[1], st)
+				return []Value{{sx(fn, j.T), e.typeOf(c)}}
+			}
 		case "freshPtr":
 			// freshPtr(p): p is nil or points to an object allocated since the function (for a callee's contract: the call) began
 			if e.isSpecHelper(id) && e.entry != nil {
